@@ -104,6 +104,7 @@ class Interp:
         # memory offset instead of building ite-chains over the region
         self.concretize = concretize
         self.merge = True       # if-convert small pure diamonds instead of forking
+        self.fold_libm = True   # evaluate libm calls whose arguments are all concrete
         self.merged = 0
         self._spec = False
         self.mod = mod
@@ -411,6 +412,15 @@ class Interp:
                 return min(a, b) if base == "fmin" else max(a, b)
             a, b = rat(a), rat(b)
             return z3.If(a <= b, a, b) if base == "fmin" else z3.If(a >= b, a, b)
+        if args and all(not is_sym(a) for a in args) and base in LIBM_FLOAT and self.fold_libm:
+            # libm at concrete arguments (quadrature nodes): evaluated in double precision,
+            # as the compiled code does
+            try:
+                v = float(LIBM_FLOAT[base](*[float(a) for a in args]))
+                if v == v and abs(v) != float("inf"):
+                    return Fraction(v)
+            except (ValueError, OverflowError):
+                pass
         self.calls.append((base, tuple(args)))
         return uf(base, *args)
 
